@@ -84,7 +84,10 @@ def run_group(pid, tier, crate, feat, obls, jobs):
         if use_cache and os.path.exists(cp):
             try:
                 with open(cp) as f:
-                    cached[o["name"]] = json.load(f)
+                    cr = json.load(f)
+                if cr.get("status") == "FAILED" and not cr.get("playback"):
+                    raise ValueError("cached failure without counterexample: recompute")
+                cached[o["name"]] = cr
                 cached[o["name"]]["cached"] = True
                 continue
             except Exception:
@@ -173,27 +176,26 @@ def run_group_uncached(pid, tier, crate, feat, obls, jobs):
             if failed and any(classify(c)[0] in ("tagged", "default") for c in failed):
                 need_pb.append(o)
         if need_pb:
-            shutil.rmtree(outdir, ignore_errors=True)
-            cmd = ["cargo", "kani", "-p", crate, "-Z", "function-contracts", "-Z", "stubbing",
-                   "-Z", "unstable-options", "-Z", "concrete-playback", "--concrete-playback=print",
-                   "-j", str(jobs), "--exact", "--output-format", "terse", "--output-into-files",
-                   "--harness-timeout", "%ds" % (tmo + 300)]
-            if features is not None:
-                cmd += ["--no-default-features", "--features", features]
-            if all(o["kani_flags"] for o in obls):
-                cmd += [x for x in obls[0]["kani_flags"] if x not in ("-Z", "unstable-options")]
-            for o in need_pb:
-                cmd += ["--harness", "verif_harness::" + o["name"]]
-            cmd = ["bash", "-c", "ulimit -v %d; exec \"$@\"" % (28 * 1024 * 1024), "--"] + cmd
-            rc2, out2, dt2 = common.sh(cmd, cwd=sc.dir, env={"CARGO_TARGET_DIR": sc.target},
-                                       timeout=(tmo + 300) * (1 + len(need_pb) // max(jobs, 1)) + 600)
-            for o in need_pb:
-                fn = os.path.join(outdir, "verif_harness::" + o["name"])
-                body = ""
-                if os.path.exists(fn):
-                    with open(fn, errors="replace") as f:
-                        body = f.read()
-                res[o["name"]]["playback"] = common.extract_playback(body)
+            # --concrete-playback is incompatible with -j: one cargo-kani process per failing harness,
+            # a few of them concurrently (they share the already compiled scratch target)
+            from concurrent.futures import ThreadPoolExecutor
+
+            def one(o):
+                cmd = ["cargo", "kani", "-p", crate, "-Z", "function-contracts", "-Z", "stubbing",
+                       "-Z", "unstable-options", "-Z", "concrete-playback", "--concrete-playback=print",
+                       "--exact", "--output-format", "terse", "--harness-timeout", "%ds" % (o["timeout"] + 300),
+                       "--harness", "verif_harness::" + o["name"]]
+                if features is not None:
+                    cmd += ["--no-default-features", "--features", features]
+                if o["kani_flags"]:
+                    cmd += [x for x in o["kani_flags"] if x not in ("-Z", "unstable-options")]
+                cmd = ["bash", "-c", "ulimit -v %d; exec \"$@\"" % (28 * 1024 * 1024), "--"] + cmd
+                rc2, out2, dt2 = common.sh(cmd, cwd=sc.dir, env={"CARGO_TARGET_DIR": sc.target}, timeout=o["timeout"] + 900)
+                return o["name"], common.extract_playback(out2)
+
+            with ThreadPoolExecutor(max_workers=min(6, max(1, jobs // 2))) as ex:
+                for name, vals in ex.map(one, need_pb[:24]):
+                    res[name]["playback"] = vals
         return res, dt, out
     finally:
         sc.cleanup()
